@@ -11,11 +11,16 @@ Open Scope Z_scope.
 
 (* EPull: one more pull from the adaptor after its finite source is exhausted (the source yields
    Frame::EQUILIBRIUM, DetectEnvelope::next feeds it to the detector like any other frame);
-   EParts v: DetectEnvelope::into_parts, then the returned detector gets frame v (mode 0: the detector itself) *)
-Inductive eop := EFrame (v : list Z) | EAttack (bits : Z) | ERelease (bits : Z) | EPull | EParts (v : list Z).
+   EParts v: DetectEnvelope::into_parts, then the returned detector gets frame v (mode 0: the detector itself);
+   EClone: the detector (mode 0) / the adaptor is replaced by its clone() (derive(Clone): the same state).
+   ctor: how the detector is constructed -- 0 the named constructor (Detector::peak, peak_positive_half_wave,
+   peak_negative_half_wave, rms), 1 Detector::peak_from_rectifier(R, ..) (rms: Detector::new(Rms::new(w), ..)),
+   2 Detector::new(Peak::from(R), ..) (rms: as 1).  The attack and release times are swapped by no constructor:
+   the model hands them on in the order given (peak_ctor). *)
+Inductive eop := EFrame (v : list Z) | EAttack (bits : Z) | ERelease (bits : Z) | EPull | EParts (v : list Z) | EClone.
 Inductive c19case :=
 | RCase (fmt nch : Z) (frames : list (list Z))
-| ECase (fmt nch det window attack release mode : Z) (ops : list eop).
+| ECase (fmt nch det window attack release mode ctor : Z) (ops : list eop).
 
 Definition ifmt_of (c : Z) : option ifmt :=
   match c with
@@ -87,6 +92,7 @@ Fixpoint drive (fuel : nat) (last : list X) (ga gr : Z) (ds : DS) (ops : list eo
     | Panic k => [[8; zn (panic_code k)]]
     | UB => [[-2]]
     end
+  | EClone :: t => [26] :: drive fuel' last ga gr ds t (tl obs)
   | EPull :: t =>
     (* only meaningful in the adaptor modes once every source frame has been pulled *)
     if negb adapt || existsb is_frame t then [[-3]] else
@@ -164,9 +170,12 @@ Definition nchan (nch : Z) : Z := if nch =? 0 then 1 else nch.   (* 0 = bare sam
 Definition model_obs (c : c19case) (obs : list (list Z)) : list (list Z) :=
   match c with
   | RCase fmt _ frames => run_rect fmt frames
-  | ECase fmt nch det win attack release mode ops =>
+  | ECase fmt nch det0 win attack0 release0 mode ctor ops =>
     let k := nchan nch in
     let adapt := negb (mode =? 0) in
+    (* peak detectors: the rectifier the constructed detector uses and the order of the two times *)
+    let '(det, attack, release) :=
+      if det0 =? 3 then (det0, attack0, release0) else peak_ctor ctor det0 attack0 release0 in
     match ifmt_of fmt with
     | Some f => if det =? 3 then run_env_int_rms f k win attack release adapt ops obs
                 else run_env_int_peak f k det attack release adapt ops obs
